@@ -28,8 +28,19 @@ type solverSpec struct {
 	skip func(script string) bool
 }
 
+// Several seeds of z3 5.1.0 are raced: quantified goals that one seed decides in a second can
+// time out under another (measured), and a proof must not depend on that luck.
 var solvers = []solverSpec{
 	{"z3-new", func(f string, t int) []string { return []string{"z3-new", fmt.Sprintf("-T:%d", (t+999)/1000), f} }, nil},
+	{"z3-new/seed1", func(f string, t int) []string {
+		return []string{"z3-new", fmt.Sprintf("-T:%d", (t+999)/1000), "smt.random_seed=1", f}
+	}, nil},
+	{"z3-new/seed7", func(f string, t int) []string {
+		return []string{"z3-new", fmt.Sprintf("-T:%d", (t+999)/1000), "smt.random_seed=7", f}
+	}, nil},
+	{"z3-new/ematch", func(f string, t int) []string {
+		return []string{"z3-new", fmt.Sprintf("-T:%d", (t+999)/1000), "smt.mbqi=false", "smt.random_seed=3", f}
+	}, nil},
 	{"z3", func(f string, t int) []string { return []string{"z3", fmt.Sprintf("-T:%d", (t+999)/1000), f} }, nil},
 	{"cvc5", func(f string, t int) []string {
 		return []string{"cvc5", "--lang=smt2", fmt.Sprintf("--tlimit=%d", t), f}
@@ -88,8 +99,17 @@ func Solve(script string, workdir, name string, timeoutMs int, all bool) SolveRe
 		}(s)
 	}
 	res := SolveResult{Status: "unknown", All: map[string]string{}}
+	var grace <-chan time.Time
 	for i := 0; i < n; i++ {
-		a := <-ch
+		var a ans
+		select {
+		case a = <-ch:
+		case <-grace:
+			// cross-check window over: the remaining solvers are abandoned
+			cancel()
+			i = n
+			continue
+		}
 		res.All[a.name] = a.status
 		if (a.status == "sat" || a.status == "unsat") && res.Backend == "" {
 			res.Status = a.status
@@ -100,6 +120,7 @@ func Solve(script string, workdir, name string, timeoutMs int, all bool) SolveRe
 				cancel()
 				break
 			}
+			grace = time.After(5 * time.Second)
 		} else if a.status == "sat" || a.status == "unsat" {
 			if a.status != res.Status {
 				res.Status = "disagree"
